@@ -105,9 +105,9 @@ EXTRA = {
  "C01": " Also from non-initial gateway states: after an earlier legacy tunnel (same or another connection id; left open, closed, dropped) every history up to depth 2/3 on a websocket and a legacy connection, judged by a fresh monitor; a second RDG_IN_DATA with the same id at three points; and the sequence / cookie / capability wiring on the real rdpgw binary. Pipelining: the canonical history with one extra symbol at every position and every pair after each prefix, sent without waiting for the answers, must give the same answers, connections and relayed bytes. Two websockets presenting one connection identifier: what the second sends unauthorised reaches nobody's host.",
  "C02": " Minted lifetime for identities with every expiry; on the real binary the minted token must verify under the configured signing key, claims re-signed under that key are accepted and under the other configured secret refused. Two tunnels with real tokens at once (deviation bound 1/2, statement-level points in the security package, the provider's answer a scheduling point): a revoked second token of the same user / of another user next to an honoured one. Cookie expiry judged at the time of the tunnel request also when the client connected earlier (clock +3 / +7 / +30 min between handshake and tunnel request).",
  "C03": " Plus two-user histories on one gateway process, every schedule (deviation bound 2/3) of two tunnels whose real tokens are verified by the real CheckPAACookie at the same time (identity-provider round trip = scheduling point), and the host policy on the real binary per authentication scheme. Per-user host lists and two websockets with one connection identifier, two tunnels at once with real tokens (statement-level points in security).",
- "C05": " Two Basic requests in flight at once on the real binary: the authentication backend is gated by the harness, all six orders of {request i reaches the backend, backend answers i} for three pairs of principals; Kerberos positive and negative cases with tickets forged under the gateway's keytab. The same account twice at once (right / wrong password) with the gated backend; a second client while a tunnel of each scheme is open; client-announced user headers; the input list again with the session cookie of a completed OpenID login. A configuration with no mechanism the gateway knows: 401 without a challenge.",
- "C06": " Also: the client closing the channel while the host streams, and two tunnels whose hosts stream at once (two goroutines building packets). On the real binary over real sockets: 6 MiB client to host in 32 KiB data packets, then an orderly close, to a host that starts reading late.",
- "C07": " Also with real tokens and the real security callbacks, with connections that deliver one write per read, and with a scheduling point between a read's return and the reader's next step (5 kB packets read straight into the reader's buffer). 17 and 64 tunnels in lockstep with a barrier (one schedule each), a configured idle timeout, a silent accepted legacy client next to a full session. On the real binary with socket buffer sizes configured: tunnel A relays 12 MiB while tunnel B is set up; each side receives only its own bytes.",
+ "C05": " Two Basic requests in flight at once on the real binary: the authentication backend is gated by the harness, all six orders of {request i reaches the backend, backend answers i} for three pairs of principals; Kerberos positive and negative cases with tickets forged under the gateway's keytab. The same account twice at once (right / wrong password) with the gated backend; a second client while a tunnel of each scheme is open; client-announced user headers; the input list again with the session cookie of a completed OpenID login. A configuration with no mechanism the gateway knows: 401 without a challenge. After one NTLM type 1 message every sequence of two (thorough: three) authenticate messages over that challenge from {A right, B right, wrong password, unknown account, names A with B's proof, names B with A's proof}.",
+ "C06": " Also: the client closing the channel while the host streams, and two tunnels whose hosts stream at once (two goroutines building packets). On the real binary over real sockets: 6 MiB client to host in 32 KiB data packets, then an orderly close, to a host that starts reading late. Data packets too short to hold their own length field.",
+ "C07": " Also with real tokens and the real security callbacks, with connections that deliver one write per read, and with a scheduling point between a read's return and the reader's next step (5 kB packets read straight into the reader's buffer). 17 and 64 tunnels in lockstep with a barrier (one schedule each), a configured idle timeout, a silent accepted legacy client next to a full session. On the real binary with socket buffer sizes configured: tunnel A relays 12 MiB while tunnel B is set up; each side receives only its own bytes. Two users across the web side and the tunnel side of one process wired like main.go: every sequence of two (thorough: three) operations from {download, tunnel to the own host, tunnel asking for the other user's host, refused download} has the outcomes of a fresh process.",
  "C09": " Further drivers: connection-file download concurrent with channel creation (D7), two legacy tunnels back to back (D8), two tunnels with real tokens (D9), two browsers downloading from a gateway with an .rdp template (D10); sync.Pool is modelled.",
  "C10": " (g) a tour of the real binary under six authentication configurations: login, download, token introspection, every registered route, and a complete session over websocket and over the legacy transport with the callbacks as main() wires them; (e) every sequence of up to 3 requests x connection ids. Two writers on one client connection (relay and packet loop) with one/two preemptions, judged for panics; clients falling silent under a configured idle timeout with every timer of the gateway firing (virtual time); headers with bytes that are not UTF-8. (j) a packet kept incomplete over 10 / 200 / 2000 fragments: the reader's call-stack depth must not grow; panics leaving the NTLM verifier are recorded as the end of the authentication service.",
  "C11": " Also compound endings (outbound connection lost while the host keeps writing, then each ordinary ending on the inbound one), the client going away in the middle of a packet at 6 offsets, descriptor count of the real process around nine tunnels, and a watchdog that reports a goroutine spinning without reaching a scheduling point. Two tunnels ending together (9 scenarios, deviation bound 1/2); a tunnel ending while 16 / 64 others stay open, observed while they live.",
@@ -117,7 +117,7 @@ EXTRA = {
  "C17": " After a mismatch every connection of the tunnel must be closed by the gateway; capability settings on the real binary. Two handshakes at once with different versions and offers (8 scenarios, deviation bound 1/2).",
  "C18": " Includes Server.Authentication not configured at all (documented default).",
  "C19": " The output of the previous marshal call must be unchanged after the next one (aliasing). Two downloads at once (statement-level points, with and without template), and the first two downloads of a process at once (one process per execution).",
- "C20": " Binding: the real binary with a kerberos configuration and scripted KDCs on loopback TCP/UDP sockets (reply over TCP / UDP, silent, refusing, truncating; unknown realm; other methods; malformed bodies). Two requests at once (same realm, two realms, parent and child; replying, silent, refusing, half-replying KDCs), every schedule up to the deviation bound: each answered as if alone, a healthy answer never waits for a deadline. Child realm and unconfigured realm below a [domain_realm] suffix.",
+ "C20": " Binding: the real binary with a kerberos configuration and scripted KDCs on loopback TCP/UDP sockets (reply over TCP / UDP, silent, refusing, truncating; unknown realm; other methods; malformed bodies). Two requests at once (same realm, two realms, parent and child; replying, silent, refusing, half-replying KDCs), every schedule up to the deviation bound: each answered as if alone, a healthy answer never waits for a deadline. Child realm and unconfigured realm below a [domain_realm] suffix. The requests that are to be rejected (other methods, no length, over 128 KiB, invalid DER, trailing bytes, lying inner length): the status the property names and nothing sent to a KDC.",
 }
 for k, v in EXTRA.items():
     P[k]["text"] += v
